@@ -137,6 +137,27 @@ func c09(r *vlib.Run) int {
 	}
 	defer srv.Stop()
 	cache := filepath.Join(srv.Spec.Dir, "cache")
+	// servers started with the integration-test switch explicitly OFF in the
+	// spellings an operator may use; a stray ./id_rsa.pub (which test mode would
+	// take for every user's authorized_keys) lies in their working directory
+	type keySrv struct {
+		srv   *vlib.Server
+		cache string
+		env   string
+	}
+	keySrvs := []keySrv{{srv, cache, ""}}
+	for k, val := range []string{"no", "off", "0"} {
+		es := &vlib.ServerSpec{Name: fmt.Sprintf("c09env%d", k), Server: map[string]interface{}{"MaxConnections": 400}, LogLevel: "error",
+			Env: []string{"DTAIL_INTEGRATION_TEST_RUN_MODE=" + val}}
+		es.Dir = r.Dir("srv-" + es.Name)
+		os.WriteFile(filepath.Join(es.Dir, "id_rsa.pub"), []byte(pool[k%len(pool)].AuthKey+" stray@key\n"), 0644)
+		if s2, err := r.StartServer(es); err == nil {
+			defer s2.Stop()
+			keySrvs = append(keySrvs, keySrv{s2, filepath.Join(s2.Spec.Dir, "cache"), val})
+		} else {
+			r.Inconclusive("env-server-start")
+		}
+	}
 
 	// ---------------- key cases
 	n := r.N(5000, 80000)
@@ -291,6 +312,14 @@ func c09(r *vlib.Run) int {
 	}
 	vlib.Parallel(n, 12, func(i int) {
 		c := cases[i]
+		ks := keySrvs[0]
+		if i%4 == 3 {
+			ks = keySrvs[(i/4)%len(keySrvs)]
+		}
+		srv, cache := ks.srv, ks.cache
+		if ks.env != "" {
+			r.Count("key_cases_on_servers_with_test_mode_switched_off_explicitly", 1)
+		}
 		path := filepath.Join(cache, c.user+".authorized_keys")
 		defer os.Remove(path)
 		var firstMtime time.Time
